@@ -62,7 +62,7 @@ func h32(s string) bitcoin.Hash32 {
 	return *h
 }
 
-const ruleC03peer = "a real BitcoinNode (full or verify-only) is run over loopback TCP against a scripted peer, brought to the point where it has sent its verification getheaders, and answered with a drawn reply: a headers message with 0..5 headers whose FIRST header is one of {BSV split header, BCH split header, random, another real mainnet header, an acceptable child of genesis, the BSV header with one field mutated} and whose remaining headers are arbitrary (including the BSV header in second place), or no reply followed by a close; in half of the cases everything the scripted peer writes is cut into pieces of 1..100 bytes over the first 600 bytes of each send (TCP segmentation at arbitrary offsets); oracle: Verified()/IsReady() become true exactly when the first header is the BSV split header; in every other case the node closes the connection (peer observes EOF), never becomes ready and the header repository is untouched (no ProcessHeader call, tip unchanged); a verify-only node disconnects after success without sending sendheaders/getaddr/getheaders/addr; non-trivial = empty reply, or BSV header in second place, or a mutated BSV header, or BCH first; distinct = (node kind, first-header kind, count, tail kinds)"
+const ruleC03peer = "a real BitcoinNode (full or verify-only) is run over loopback TCP against a scripted peer, brought to the point where it has sent its verification getheaders, and answered with a drawn reply: a headers message with 0..5 headers whose FIRST header is one of {BSV split header, BCH split header, random, another real mainnet header, an acceptable child of genesis, the BSV header with one field mutated} and whose remaining headers are arbitrary (including the BSV header in second place), or no reply followed by a close; in half of the cases everything the scripted peer writes is cut into pieces of 1..100 bytes over the first 160 bytes of each send (TCP segmentation at arbitrary offsets); oracle: Verified()/IsReady() become true exactly when the first header is the BSV split header; in every other case the node closes the connection (peer observes EOF), never becomes ready and the header repository is untouched (no ProcessHeader call, tip unchanged); a verify-only node disconnects after success without sending sendheaders/getaddr/getheaders/addr; non-trivial = empty reply, or BSV header in second place, or a mutated BSV header, or BCH first; distinct = (node kind, first-header kind, count, tail kinds)"
 
 func TestProp_C03_peer(t *testing.T) {
 	col := evid.For("C03", "peer", ruleC03peer)
@@ -274,7 +274,7 @@ func genPreMsg(t *rapid.T, i int, stage int, hsDone bool) preMsg {
 	return m
 }
 
-const ruleC13 = "a real BitcoinNode (full or verify-only, with a TxManager whose processor is a recording spy) is run over loopback TCP against a scripted peer and stopped at a drawn stage BEFORE verification (S0 connected / S1 peer version sent / S2 handshake complete, verification pending); the peer then sends a drawn sequence (0..10) over {headers the repository WOULD accept, the BSV split header itself while the handshake is still incomplete, addr, inv, tx, block, extended tx/block/unknown, getaddr, ping, pong, protoconf, repeated version, early/duplicate verack, unknown, reject naming a drawn command (any the node itself sends: version, verack, getheaders, getdata, ping, ...; or tx/block with a hash) with a drawn code and reason}; in half of the cases everything the scripted peer writes is cut into pieces of 1..100 bytes over the first 600 bytes of each send (TCP segmentation at arbitrary offsets); oracle: zero ProcessHeader calls, zero address-book Add/UpdateScore calls, the transaction manager still treats every announced/delivered txid as never seen (AddTxID from another peer id returns true) and the processor saw no transaction, and the peer received no getheaders besides the verification request and no getdata; non-vacuity: the same generators drive the positive control (TestRegr_C13_positive_control) where the messages sent AFTER verification do reach the spies; non-trivial = sequence containing at least two of {acceptable headers, addr, inv/tx}; distinct = (node kind, stage, message kind list)"
+const ruleC13 = "a real BitcoinNode (full or verify-only, with a TxManager whose processor is a recording spy) is run over loopback TCP against a scripted peer and stopped at a drawn stage BEFORE verification (S0 connected / S1 peer version sent / S2 handshake complete, verification pending); the peer then sends a drawn sequence (0..10) over {headers the repository WOULD accept, the BSV split header itself while the handshake is still incomplete, addr, inv, tx, block, extended tx/block/unknown, getaddr, ping, pong, protoconf, repeated version, early/duplicate verack, unknown, reject naming a drawn command (any the node itself sends: version, verack, getheaders, getdata, ping, ...; or tx/block with a hash) with a drawn code and reason}; in half of the cases everything the scripted peer writes is cut into pieces of 1..100 bytes over the first 160 bytes of each send (TCP segmentation at arbitrary offsets); oracle: zero ProcessHeader calls, zero address-book Add/UpdateScore calls, the transaction manager still treats every announced/delivered txid as never seen (AddTxID from another peer id returns true) and the processor saw no transaction, and the peer received no getheaders besides the verification request and no getdata; non-vacuity: the same generators drive the positive control (TestRegr_C13_positive_control) where the messages sent AFTER verification do reach the spies; non-trivial = sequence containing at least two of {acceptable headers, addr, inv/tx}; distinct = (node kind, stage, message kind list)"
 
 func TestProp_C13_preverify(t *testing.T) {
 	col := evid.For("C13", "preverify", ruleC13)
